@@ -44,6 +44,7 @@ var c20Neigh = map[string]c20Pt{
 	"nE": {mToDeg(990), mToDeg(990)}, // inside the search rectangle, outside the circle
 	"nF": {0, mToDeg(3000)},
 	"xG": {0, mToDeg(300)}, // an id the n* pattern does not match
+	"m":  {0, mToDeg(400)}, // the id of the moving object, in another collection
 }
 
 var c20Pos = map[string]c20Pt{
@@ -67,7 +68,7 @@ type c20Config struct {
 }
 
 func checkC20(job *Job, res *Result) {
-	res.Rule = "SEQ over configurations: 1-2 (thorough 1-3) neighbours out of 7 placements x id pattern {*, exact, n*, non-matching, [nx]?, ?B} x NODWELL x all move histories of length 1-2 (thorough 1-3) over {T, T2 (200 m away), Far, and moves preceded by DROP+re-add / RENAME cycle / delete-all+mirror of the roamed collection}, repeated positions included, roamed key = fenced key or a separate key; the plain configurations repeated around the antimeridian and next to the pole; a ROAM pattern naming the moving object itself; receivers channel + live + webhook; expected nearby/faraway sets and metres from haversine distances; distinct = distinct (configuration, expected message list)"
+	res.Rule = "SEQ over configurations: 1-2 (thorough 1-3) neighbours out of 7 placements x id pattern {*, exact, n*, non-matching, [nx]?, ?B} x NODWELL x all move histories of length 1-2 (thorough 1-3) over {T, T2 (200 m away), Far, and moves preceded by DROP+re-add / RENAME cycle / delete-all+mirror of the roamed collection}, repeated positions included, roamed key = fenced key or a separate key; the plain configurations repeated around the antimeridian and next to the pole; a ROAM pattern naming the moving object itself; histories in which the moving object holds a string first / in between; a neighbour in another collection sharing the moving object's id; 4 histories of 104-106 moves on one fence (more notifications than the default LIMIT of a search); receivers channel + live + webhook; expected nearby/faraway sets and metres from haversine distances; distinct = distinct (configuration, expected message list)"
 	res.Assumptions = append(res.Assumptions, "metres are compared with a relative tolerance of 1e-6 + 2 mm (sphere of radius 6371 km)")
 	names := []string{"nA", "nB", "nC", "nD", "nE", "nF", "xG"}
 	maxN, maxMoves := 2, 2
@@ -132,6 +133,37 @@ func checkC20(job *Job, res *Result) {
 			cf.Region = region
 			cfgs = append(cfgs, cf)
 		}
+	}
+	// long histories on one fence: more notifications than the default LIMIT (100) of a search
+	var long []string
+	for i := 0; i < 104; i++ {
+		long = append(long, []string{"T", "T2"}[i%2])
+	}
+	long = append(long, "Far", "T")
+	for _, rk := range []string{"fleet", "others"} {
+		for _, nd := range []bool{false, true} {
+			h := long
+			if nd {
+				// NODWELL reports only the first sighting: leave and return each time
+				h = nil
+				for i := 0; i < 104; i++ {
+					h = append(h, []string{"T", "Far"}[i%2])
+				}
+			}
+			cfgs = append(cfgs, c20Config{"", rk, []string{"nA", "nC"}, "*", nd, h})
+		}
+	}
+	// the moving object held a string before / in between (a string has no position: nothing was near it)
+	for _, rk := range []string{"fleet", "others"} {
+		for _, h := range [][]string{{"Str", "Far"}, {"Str", "T"}, {"T", "Str", "Far"}, {"Far", "Str", "T"}, {"T", "Str", "T2"}} {
+			for _, ns := range [][]string{{"nA"}, {"nA", "nF"}, {"nB", "nD"}} {
+				cfgs = append(cfgs, c20Config{"", rk, ns, "*", false, h})
+			}
+		}
+	}
+	// a neighbour in ANOTHER collection that happens to share the moving object's id
+	for _, h := range [][]string{{"T"}, {"T", "Far"}, {"T", "T2"}} {
+		cfgs = append(cfgs, c20Config{"", "others", []string{"m", "nB"}, "*", false, h})
 	}
 	var only *c20Config
 	if job.Replay != nil {
@@ -236,6 +268,23 @@ func checkC20(job *Job, res *Result) {
 					recvPayloads(live)
 					hookSeen = len(ep.OK())
 					mv = mv[:i]
+				}
+				if mv == "Str" {
+					// the moving object is overwritten by a string: it has no position any more
+					c.Do("SET", "fleet", "m", "STRING", "not a position")
+					vsched.Quiesce()
+					vsched.Sleep(int64(300 * stdtime.Millisecond))
+					vsched.Quiesce()
+					for recv, msgs := range map[string][]string{"channel": recvPayloads(sub), "live": recvPayloads(live), "webhook": ep.OK()[hookSeen:]} {
+						for _, raw := range msgs {
+							if strings.Contains(raw, `"detect":"roam"`) {
+								viol("roam-message-for-a-string", fmt.Sprintf("move %d: SET fleet m STRING: %s received %s", mi, recv, vclip(raw, 200)))
+							}
+						}
+					}
+					hookSeen = len(ep.OK())
+					prev = nil
+					continue
 				}
 				p := place(c20Pos[mv])
 				c.Do("SET", "fleet", "m", "POINT", fnum(p.Lat), fnum(p.Lon))
